@@ -247,6 +247,8 @@ theorem nonvacuous_pointer_eval :
 /-! ## Translated functions (YtkModel/Generated/Funcs.lean, regenerated from the Go source on every
     run by extract/translate.go): the translation EQUALS the hand-written model, for all inputs.
     An edit of the Go function changes the regenerated definition and these stop checking. -/
+end Ytk.C02
+
 namespace Ytk.C02
 open Ytk.Generated
 
